@@ -309,6 +309,16 @@ static void run(int depth)
 	/* selector: 12 calls per event x 2 events + 2 loop calls = 26 alternatives.  The first
 	 * C02_PREFIX_LEN calls are fixed by the obligation (the driver enumerates all of them), the
 	 * remaining ones are chosen by the solver. */
+#ifdef C02_FIRST
+	/* the first call is one of a group of alternatives listed by the obligation (the driver
+	 * partitions the 26 alternatives into groups to bound the size of one tree) */
+	if (depth == 0) {
+		static const int first[] = { C02_FIRST };
+		int fi = (int)vp_range(0, sizeof(first) / sizeof(first[0]) - 1), j;
+		op = first[0];
+		for (j = 0; j < (int)(sizeof(first) / sizeof(first[0])); j++) if (fi == j) op = first[j];
+	} else
+#endif
 	op = depth < C02_PREFIX_LEN ? c02_prefix[depth] : (int)vp_range(C02_SELMIN, C02_SELMAX);
 	k = op >= 12 && op < 24;
 	/* cbmc limitation (measured): struct event keeps {ev_io_next, ev_io_timeout} and
